@@ -9,7 +9,7 @@ from ..engine.context import Context
 from ..engine.excflow import CANCELLED
 from ..engine.loader import EXC_ALIASES, EXCLUDED_MODULES, walk_expr
 from ..engine.report import norm_stmt
-from ..engine.terms import contains, show
+from ..engine.terms import contains, show, strip_sites
 
 PROPERTY = "C08"
 EXPLANATION = (
@@ -650,6 +650,33 @@ def _g1(ctx: Context) -> None:
     if not pops:
         ck.violated("C08.G1", f"{ctx.fkey(f)}:no-dispatch", "data_received never takes a future from the FIFO: no response is ever "
                     "delivered to its request", f.loc())
+    # exactly one FIFO slot per response: after a pop no further pop is reachable before the message is finished
+    # (the response object is renewed / the next parse starts).  A response that consumes several slots - e.g. by
+    # skipping waiters that already gave up - hands a later caller the answer to an earlier request.
+    renew = {m.id for m in cfg.nodes if m.kind == "stmt" and isinstance(m.ast, ast.Assign) and any(
+        strip_sites(T.of(cfg, m, tg)) == current for tg in m.ast.targets if isinstance(tg, ast.Attribute))}
+    parses = {m.id for m in cfg.nodes for c, recv, meth in _mcalls(ctx, cfg, m) if meth == "parse"}
+    pop_ids = {n.id for n, _p in pops}
+    for n, popped in pops:
+        again = None
+        for e in ctx.normal_out(cfg, n):
+            if e[1] in pop_ids:
+                again = [(n.id, e[2], None), (e[1], None, None)]
+                break
+            pth = cfg.find_path(e[1], pop_ids, avoid_nodes=renew | parses)
+            if pth is not None:
+                again = [(n.id, e[2], None)] + pth
+                break
+        ck.check(
+            "C08.G1",
+            again is None,
+            "data_received: one response consumes exactly one FIFO slot (no second pop before the message is finished)",
+            f"{ctx.fkey(f)}:several-pops-per-response",
+            "data_received can take more than one future from the FIFO for a single response (e.g. skipping waiters that are already done): "
+            "the answer to an abandoned request is delivered to the NEXT caller, whose own answer then goes to the one after",
+            ctx.loc(f, n),
+            cfg.render_path(again) if again else None,
+        )
     for n, popped in pops:
         ctx.must_pass("C08.G1", cfg, n, "response kind == 'http'", http_edges,
                       desc="data_received: a future is taken from the FIFO only for an 'http' response")
